@@ -123,7 +123,7 @@ def gen_cases(ctx):
         amps = {jb.get("amp") for jb in jobs if jb["kind"] == "find_link_iter"}
         if i % 16 == 0:
             case["fresh"] = "all"
-        elif len(amps) >= 2:
+        elif len(amps) >= 2 and i % 2 == 0:
             case["fresh"] = "find_link"
         yield case
     if ctx.thorough:
